@@ -411,7 +411,13 @@ func determStream(r *Run) {
 			}
 			nkvs = append(nkvs, SKV(strings.Repeat("n", 1+j%4)+fmt.Sprint(11-j), VMap(TInt(0), TAny, inner...)))
 		}
-		maps := []*V{VKeyed(kfs...), big(4, 1<<60, 8), big(4, -(1 << 60), 8), big(0, 1<<53, 6), big(4, (1<<62)-4, 8), big(9, 1<<62, 8), big(3, 1<<30, 5), big(4, -3, 7), VStrMap(skvs...), VStrMap(nkvs...)}
+		// keys of one map[any]any that are equal as numbers and differ in Go type (1, 1.0, int64(1), uint8(1)), next to
+		// neighbours beyond 2^53 of different types: the key order must not leave ties to the map's own order
+		mixed := VMap(TAny, TAny, KV(VInt(0, 1), VStr("a")), KV(VFlt(1, 1.0), VStr("b")), KV(VInt(4, 1), VStr("c")), KV(VInt(6, 1), VStr("d")),
+			KV(VFlt(0, 1.0), VStr("e")), KV(VInt(0, 0), VStr("f")), KV(VStr("1"), VStr("g")), KV(VBool(true), VStr("h")))
+		mixedWide := VMap(TAny, TAny, KV(VInt(4, (1<<53)+1), VStr("a")), KV(VInt(9, 1<<53), VStr("b")), KV(VFlt(1, 1<<53), VStr("c")),
+			KV(VInt(0, 1<<53), VStr("d")), KV(VInt(9, (1<<53)+1), VStr("e")), KV(VInt(4, (1<<53)+2), VStr("f")))
+		maps := []*V{mixed, mixedWide, VKeyed(kfs...), big(4, 1<<60, 8), big(4, -(1 << 60), 8), big(0, 1<<53, 6), big(4, (1<<62)-4, 8), big(9, 1<<62, 8), big(3, 1<<30, 5), big(4, -3, 7), VStrMap(skvs...), VStrMap(nkvs...)}
 		tmpls := []string{"{% for kv in m %}{{ kv }};{% endfor %}", "{% for kv in m %}{{ kv[1] }}{% endfor %}", "{{ m | join: '' }}", "{{ m | first }}{{ m | last }}", "{% tablerow kv in m cols:3 %}{{ kv[1] }}{% endtablerow %}",
 			"{{ m | sort | join: ',' }}", "{{ m | reverse | join: ',' }}", "{% for kv in m reversed limit:3 offset:1 %}{{ kv[0] }};{% endfor %}", "{{ m | uniq | size }}{{ m | map: 'x' | size }}",
 			"{{ m | json }}", "{{ m | inspect }}|{{ m | type }}", "{% for kv in m %}{{ kv | json }}{% endfor %}{{ m | first | inspect }}"}
